@@ -483,7 +483,7 @@ struct FnOwner {
     }
     void step(vf::Chooser& ch)
     {
-        unsigned w = ch.pick(10);
+        unsigned w = ch.pick(11);
         int v      = (int)ch.pick(3);
         bool oe    = ch.flag();
         char sit[96];
@@ -591,6 +591,14 @@ struct FnOwner {
                 live_in(o, (oe && !mv) ? K : 0);
                 if (mv) { vf::eq_bool("moved-from-is-empty", static_cast<bool>(o), false); }
             }
+            break;
+        }
+        case 10: { // self move-assignment (through a second reference): only validity is required afterwards - empty or the old target, the
+                   // captured objects alive exactly when a target is held, no lifetime violation, still assignable and destructible
+            vf::crumb(subj, "operator=(move of self)", st(), "-");
+            F& r = f;
+            f    = static_cast<F&&>(r);
+            if (!static_cast<bool>(f)) { m.reset(); }
             break;
         }
         default: {
